@@ -36,7 +36,7 @@ ANCHOR_FILES = ("_core", "_namespace", "_typehints", "_util", "_common")
 NO_SHRINK = ("parser/opts", "parser/opts/*", "world", "world/*")
 SHRINK_DICTS = ("ops/*/obj", "ops/*/env", "ops/*/base", "ops/*/ns")
 
-FEATS = ["l", "ll", "d", "dl", "t", "st", "tl", "x", "n", "p", "inner", "dd", "dg", "obj", "objs", "dobjs", "odobjs", "holder", "model", "pr", "sd", "dcf", "ostr", "sub", "subreq", "pos"]
+FEATS = ["l", "ll", "d", "dl", "t", "st", "tl", "x", "n", "p", "inner", "dd", "dg", "obj", "objs", "dobjs", "odobjs", "holder", "model", "pr", "sd", "dcf", "ostr", "sub", "subreq", "pos", "lho", "tho"]
 
 
 def parser_spec(feats, eoe):
@@ -85,6 +85,10 @@ def parser_spec(feats, eoe):
         arg("odobjs", "odict_str_base", None)
     if "holder" in feats:
         arg("holder", "opt_holder", None)
+    if "lho" in feats:
+        arg("lho", "list_opt_holder", [])
+    if "tho" in feats:
+        arg("tho", "tuple_holder_int", None)
     if "model" in feats:
         A.append({"k": "class", "cls": "Model", "name": "model"})
         A.append({"k": "link", "src": "a", "dst": "model.width", "fn": "double"})
@@ -144,6 +148,8 @@ OBJ = {
     "objs": [{"objs": [{"class_path": "dsim.simtypes.Base", "init_args": {"tags": [1]}}]}, {"objs": [SUB1, SUB1]}],
     "dobjs": [{"dobjs": {"k": {"class_path": "dsim.simtypes.Base", "init_args": {"tags": [1]}}, "j": SUB1}}],
     "odobjs": [{"odobjs": {"__odict__": [["k", {"class_path": "dsim.simtypes.Base", "init_args": {"tags": [1]}}], ["j", SUB1]]}}],
+    "lho": [{"lho": [None, {"class_path": "dsim.simtypes.Holder"}]}, {"lho": [{"class_path": "dsim.simtypes.Holder"}, None]}, {"lho": [None, None, {"class_path": "dsim.simtypes.Holder", "init_args": {"m": 2}}]}],
+    "tho": [{"tho": [{"class_path": "dsim.simtypes.Holder"}, 3]}, {"tho": {"__tuple__": [{"class_path": "dsim.simtypes.Holder"}, 3]}}],
     "holder": [{"holder": {"class_path": "dsim.simtypes.Holder"}}, {"holder": {"class_path": "dsim.simtypes.Holder", "init_args": {"inner": {"class_path": "dsim.simtypes.Base", "init_args": {"tags": [2]}}}}}],
     "model": [{"model": {"base": {"class_path": "dsim.simtypes.Sub1", "init_args": {"opts": {"a": 3}}}}}, {"model": {"name": "q"}}],
     "sub": [{"subcommand": "fit", "fit": {"lr": 0.5, "tags": [2, 3]}}, {"test": {"n": 2}}, {"subcommand": "test", "test": {"ck": {"class_path": "dsim.simtypes.Base", "init_args": {"tags": [1]}}}}, {"fit": {"lr": "bad"}}, {"subcommand": "nope"}],
@@ -533,7 +539,11 @@ def judge(ctx, op, args, before, gbefore, o, p, fault):
             # only objects that instantiate_classes built itself count (a signature default such as a
             # lazy_instance object that the config never mentions is shared by Python semantics)
             built = set(c[2] for c in sim.cb_log[n0:n2])
-            shared = set(map(id, a)) & set(map(id, b)) & built
+            shared = set(map(id, a)) & set(map(id, b))
+            if op.get("raw"):
+                shared &= built
+            # (a config that is entirely the product of a parse has had its signature defaults expanded into specs -
+            # "including specs derived from signature defaults" - so nothing at all may be shared there)
             if shared:
                 cls = sorted(type(x).__name__ for x in a if id(x) in shared)
                 ctx.violation("shared-instance", {"op": kind, "what": "shared-instance", "cls": cls[0], "fault": fk}, "instantiating twice from one configuration shares %d object(s): %s" % (len(shared), cls))
